@@ -9,8 +9,10 @@ p = os.path.join(V, "tools", "unclaimed.json")
 if os.path.exists(p):
     NA_REASONS = json.load(open(p))
 checks, na, engines = [], [], {}
+# only properties whose check has been integrated (passes on the unchanged tree, mutation-tested, committed)
+CLAIMED = json.load(open(os.path.join(V, "tools", "claimed.json")))
 for pid in ids:
-    if os.path.exists(os.path.join(V, "props", pid + ".py")):
+    if pid in CLAIMED and os.path.exists(os.path.join(V, "props", pid + ".py")):
         P = importlib.import_module("props." + pid)
         if getattr(P, "DISABLED", False):
             na.append(dict(property_id=pid, reason=P.DISABLED)); continue
